@@ -426,3 +426,22 @@ func ownPathOperand(p *core.Program, f *core.Func, e ast.Expr) bool {
 	}
 	return n > 0
 }
+
+// roleValue: the expression denotes the field with the given role: a selection of it, or a call of a one-line accessor
+// of the package that returns it (`func (ff *genfile) buf() *bytes.Buffer { return ff.body }`).
+func roleValue(p *core.Program, info *types.Info, e ast.Expr, role string) bool {
+	e = ast.Unparen(e)
+	if isRole(p, core.FieldOf(info, e), role) {
+		return true
+	}
+	c, ok := e.(*ast.CallExpr)
+	if !ok {
+		return false
+	}
+	h := p.FuncOfObj(core.CalleeFunc(info, c))
+	if h == nil || h.Body == nil || len(h.Body.List) != 1 {
+		return false
+	}
+	ret, ok := h.Body.List[0].(*ast.ReturnStmt)
+	return ok && len(ret.Results) == 1 && isRole(p, core.FieldOf(h.Info(), ret.Results[0]), role)
+}
